@@ -127,6 +127,114 @@ def do_parse(code):
         return 'EXC:RecursionError(render)', None
 
 
+# ---------------------------------------------------------------- trivia view (coq/Syntax/TriviaRender.v)
+# Walks the real node objects by their attributes (never through a visitor, so that a change of
+# FullAstVisitor cannot hide in the rendering): per node its kind and `whitespaces`.
+def v_q(s):
+    return '\x02' + s + '\x03'
+
+
+def v_ws(w):
+    if w is None:
+        return '-'
+    return P(w.lineno, w.colno) + v_q(w.value)
+
+
+def v_sym(s):
+    if type(s).__name__ != 'SymbolNode':
+        return '?' + type(s).__name__
+    return 'y' + v_q(s.value) + v_ws(s.whitespaces)
+
+
+def v_idn(i):
+    if type(i).__name__ != 'IdNode':
+        return '?' + type(i).__name__
+    return 'i' + v_q(i.value) + v_ws(i.whitespaces)
+
+
+def tv_args(a):
+    return ('G[' + ''.join(tv(x) for x in a.arguments) + ';' +
+            ''.join(tv(k) + ':' + tv(v) + ',' for k, v in a.kwargs.items()) + ';' +
+            ''.join(v_sym(c) for c in a.colons) + ';' + ''.join(v_sym(c) for c in a.commas) + ']' + v_ws(a.whitespaces))
+
+
+def tv_block(b):
+    return 'K[' + v_ws(b.pre_whitespaces) + ';' + ''.join(tv(x) for x in b.lines) + ']' + v_ws(b.whitespaces)
+
+
+def tv(n):
+    t = type(n).__name__
+    w = v_ws(n.whitespaces)
+    if t == 'EmptyNode':
+        return 'E' + w
+    if t == 'BooleanNode':
+        return 'B' + w
+    if t == 'IdNode':
+        return 'I' + v_q(n.value) + w
+    if t == 'NumberNode':
+        return 'N' + w
+    if t == 'StringNode':
+        return 'S' + w
+    if t == 'ContinueNode':
+        return 'Cont' + w
+    if t == 'BreakNode':
+        return 'Brk' + w
+    if t == 'ParenthesizedNode':
+        return 'P[' + v_sym(n.lpar) + tv(n.inner) + v_sym(n.rpar) + ']' + w
+    if t == 'ArrayNode':
+        return 'A[' + v_sym(n.lbracket) + tv_args(n.args) + v_sym(n.rbracket) + ']' + w
+    if t == 'DictNode':
+        return 'D[' + v_sym(n.lcurl) + tv_args(n.args) + v_sym(n.rcurl) + ']' + w
+    if t == 'FunctionNode':
+        return 'F[' + v_idn(n.func_name) + v_sym(n.lpar) + tv_args(n.args) + v_sym(n.rpar) + ']' + w
+    if t == 'MethodNode':
+        return 'M[' + tv(n.source_object) + v_sym(n.dot) + v_idn(n.name) + v_sym(n.lpar) + tv_args(n.args) + v_sym(n.rpar) + ']' + w
+    if t == 'IndexNode':
+        return 'X[' + tv(n.iobject) + v_sym(n.lbracket) + tv(n.index) + v_sym(n.rbracket) + ']' + w
+    if t == 'NotNode':
+        return 'Not[' + v_sym(n.operator) + tv(n.value) + ']' + w
+    if t == 'UMinusNode':
+        return 'Neg[' + v_sym(n.operator) + tv(n.value) + ']' + w
+    if t in ('ArithmeticNode', 'ComparisonNode', 'AndNode', 'OrNode'):
+        k = {'ArithmeticNode': 'Ar', 'ComparisonNode': 'Cmp', 'AndNode': 'And', 'OrNode': 'Or'}[t]
+        return k + '[' + tv(n.left) + v_sym(n.operator) + tv(n.right) + ']' + w
+    if t == 'TernaryNode':
+        return 'T[' + tv(n.condition) + v_sym(n.questionmark) + tv(n.trueblock) + v_sym(n.colon) + tv(n.falseblock) + ']' + w
+    if t in ('AssignmentNode', 'PlusAssignmentNode'):
+        return ('As' if t == 'AssignmentNode' else 'PAs') + '[' + v_idn(n.var_name) + v_sym(n.operator) + tv(n.value) + ']' + w
+    if t == 'IfClauseNode':
+        s = ''
+        for i in n.ifs:
+            s += 'In[' + v_sym(i.if_) + tv(i.condition) + tv_block(i.block) + ']' + v_ws(i.whitespaces)
+        e = n.elseblock
+        if type(e).__name__ == 'ElseNode':
+            s += 'El[' + v_sym(e.else_) + tv_block(e.block) + ']' + v_ws(e.whitespaces)
+        else:
+            s += tv(e)
+        return 'If[' + s + v_sym(n.endif) + ']' + w
+    if t == 'ForeachClauseNode':
+        return ('Fe[' + v_sym(n.foreach_) + ''.join(v_idn(v) for v in n.varnames) + ';' + ''.join(v_sym(c) for c in n.commas) + ';' +
+                v_sym(n.colon) + tv(n.items) + tv_block(n.block) + v_sym(n.endforeach) + ']' + w)
+    return '?' + t
+
+
+def do_trivia(code):
+    """The trivia-annotated tree and RawPrinter's output, rendered like r_tres (TriviaRender.v)."""
+    res, block = do_parse(code)
+    if block is None:
+        return res if res.startswith(('ERR', 'DEPTH')) else 'EXC:' + res
+    try:
+        view = tv_block(block)
+        rp = RawPrinter()
+        with quiet():
+            block.accept(rp)
+        return 'OK:' + view + '\x04' + rp.result
+    except RecursionError:
+        return 'DEPTH(render)'
+    except Exception as e:
+        return 'EXC:' + type(e).__name__
+
+
 class Collect(AstVisitor):
     def __init__(self):
         self.nodes = []
@@ -210,6 +318,8 @@ def main():
         for fn, args in req['cases']:
             if fn == 'lex':
                 rs.append(do_lex(args[0]))
+            elif fn == 'trivia':
+                rs.append(do_trivia(args[0]))
             else:
                 rs.append(do_parse(args[0])[0])
         out['results'] = rs
